@@ -34,48 +34,55 @@ def judge_input(n, conn, gens, fmt):
         ctor = "raised %s" % type(ex).__name__
     if ctor != valid:
         msgs.append("Stabilizer(..., validate=True) %s, the operators are %s" % ("accepted" if ctor is True else "rejected: %r" % ctor, "valid" if valid else "invalid"))
-    # preparation
+    # preparation and readout are requested on ONE Stabilizer object, in an order that alternates from case to case
+    shared = make()
     tag = ""
-    try:
-        ops = impl.circuit_ops(impl.stabilizer_circuits.get_preparation_circuit(make(), conn), keep_measure=True)
-        returned = True
-    except Exception as ex:      # noqa: BLE001
-        returned = False
-        tag += "P!" + type(ex).__name__
-    if returned:
-        tag += "P+"
-        if not valid:
-            msgs.append("preparation of a non-stabilizer returned a circuit instead of raising")
-        bad = M.check_alphabet(ops, n, allowed=DELIVERED_ALPHABET)
-        if bad:
-            msgs.append("preparation: " + bad)
+    order = ("prep", "readout") if (sum(p[0] * 3 + p[1] for p in gens) + n) % 2 == 0 else ("readout", "prep")
+    parts = {}
+    for which in order:
+        if which == "prep":
+            try:
+                ops = impl.circuit_ops(impl.stabilizer_circuits.get_preparation_circuit(shared, conn), keep_measure=True)
+                returned = True
+            except Exception as ex:      # noqa: BLE001
+                returned = False
+                parts["prep"] = "P!" + type(ex).__name__
+            if returned:
+                parts["prep"] = "P+"
+                if not valid:
+                    msgs.append("preparation of a non-stabilizer returned a circuit instead of raising")
+                bad = M.check_alphabet(ops, n, allowed=DELIVERED_ALPHABET)
+                if bad:
+                    msgs.append("preparation: " + bad)
+                else:
+                    out = M.run(ops, n)
+                    for p in gens:
+                        if not M.in_group(p, out, n):
+                            msgs.append("returned preparation circuit's output is not stabilised by %s%s" % (
+                                M.pauli_str(p, n), " (requested after a readout circuit for the same object)" if order[0] == "readout" else ""))
+                            break
+            elif valid:
+                msgs.append("preparation raised on a valid stabilizer (%s)" % parts["prep"])
         else:
-            out = M.run(ops, n)
-            for p in gens:
-                if not M.in_group(p, out, n):
-                    msgs.append("returned preparation circuit's output is not stabilised by %s" % M.pauli_str(p, n))
-                    break
-    elif valid:
-        msgs.append("preparation raised on a valid stabilizer (%s)" % tag)
-    # readout
-    try:
-        ops = impl.circuit_ops(impl.stabilizer_circuits.get_readout_circuit(make(), conn), keep_measure=True)
-        returned = True
-    except Exception as ex:      # noqa: BLE001
-        returned = False
-        tag += " R!" + type(ex).__name__
-    if returned:
-        tag += " R+"
-        bad = M.check_alphabet(ops, n, allowed=DELIVERED_ALPHABET)
-        if bad:
-            msgs.append("readout: " + bad)
-        else:
-            for p in gens:
-                if M.conj_seq(p, ops)[0] != 0:
-                    msgs.append("returned readout circuit does not diagonalise %s" % M.pauli_str(p, n))
-                    break
-    elif valid:
-        msgs.append("readout raised on a valid stabilizer (%s)" % tag)
+            try:
+                ops = impl.circuit_ops(impl.stabilizer_circuits.get_readout_circuit(shared, conn), keep_measure=True)
+                returned = True
+            except Exception as ex:      # noqa: BLE001
+                returned = False
+                parts["readout"] = "R!" + type(ex).__name__
+            if returned:
+                parts["readout"] = "R+"
+                bad = M.check_alphabet(ops, n, allowed=DELIVERED_ALPHABET)
+                if bad:
+                    msgs.append("readout: " + bad)
+                else:
+                    for p in gens:
+                        if M.conj_seq(p, ops)[0] != 0:
+                            msgs.append("returned readout circuit does not diagonalise %s" % M.pauli_str(p, n))
+                            break
+            elif valid:
+                msgs.append("readout raised on a valid stabilizer (%s)" % parts["readout"])
+    tag = parts.get("prep", "") + " " + parts.get("readout", "")
     return msgs, ("valid " if valid else "invalid ") + tag
 
 
